@@ -495,7 +495,7 @@ Proof.
     destruct (accepted o) eqn:A; auto. exfalso.
     assert (A' : accepted (fst (step H n s h m)) = true) by (rewrite St; exact A).
     destruct (accepted_signer_authorised H n s h m f v Sg A') as [[X|X] _]; [contradiction|].
-    rewrite F in X. inversion X. contradiction.
+    rewrite F in X. congruence.
   - apply IH.
     + replace s1 with (snd (step H n s h m)) by (rewrite St; reflexivity).
       rewrite feeders_kept_unless_delegate; auto.
@@ -564,4 +564,160 @@ Lemma vote_accepted_window H n s h f v salt rates tuples parses wl p :
 Proof.
   intros [V Sb] Rh E A. apply vote_accepted_iff in A as (_ & _ & (q & E' & Pd & _) & _).
   rewrite E in E'. inversion E'; subst q. apply period_ok_window in Pd; eauto.
+Qed.
+
+(* ------------------------------------------------------------------ the model's traces satisfy P *)
+
+Fixpoint otrace_of (evs : list event) (rs : list (outcome * state)) : list ostep :=
+  match evs, rs with
+  | (h, m) :: e, (o, s) :: r => (h, m, accepted o, view_of s) :: otrace_of e r
+  | _, _ => []
+  end.
+
+Lemma view_prev s x : w_prev (view_of s) x =
+  match prevotes s x with Some p => Some (p_hash p, p_submit p) | None => None end.
+Proof. reflexivity. Qed.
+
+Lemma kept_refl k s : votes_kept k (view_of s) (view_of s) /\ feeders_kept k (view_of s) (view_of s).
+Proof. split; intros x _; auto. Qed.
+
+Lemma step_satisfies_P k H n s h m :
+  step_P k H (view_of s) (h, m, accepted (fst (step H n s h m)), view_of (snd (step H n s h m))).
+Proof.
+  unfold step_P.
+  destruct m as [f v hash hex_ok|f v salt rates tuples parses wl|op d|sd nvp|v st| |].
+  - (* Prevote *)
+    destruct (accepted (fst (step H n s h (Prevote f v hash hex_ok)))) eqn:A.
+    + pose proof (prevote_effect H n s h f v hash hex_ok A _ eq_refl) as (E1 & E2 & E3 & E4 & _ & _).
+      apply prevote_accepted_iff in A as (F & B & Hx).
+      split; [|split; [discriminate|split]].
+      * intros _. repeat split; auto.
+        -- apply feeder_ok_iff in F. exact F.
+        -- rewrite view_prev, E1. reflexivity.
+        -- simpl. rewrite E3. reflexivity.
+      * intros x _ N. rewrite !view_prev, (E2 x N). simpl. rewrite E3. auto.
+      * intros x _. simpl. rewrite E4. reflexivity.
+    + rewrite (rejected_no_change _ _ _ _ _ A).
+      split; [discriminate|]. split; [auto|]. split; [intros x _ _; auto|intros x _; auto].
+  - (* Vote *)
+    destruct (accepted (fst (step H n s h (Vote f v salt rates tuples parses wl)))) eqn:A.
+    + pose proof (vote_effect H n s h f v salt rates tuples parses wl A _ eq_refl) as (E1 & E2 & E3 & E4 & _ & _).
+      apply vote_accepted_iff in A as (F & B & (p & E & Pd & Hh) & Pa & W).
+      split; [|split; [discriminate|split]].
+      * intros _. repeat split; auto.
+        -- apply feeder_ok_iff in F. exact F.
+        -- exists (p_hash p), (p_submit p). rewrite view_prev, E. auto.
+        -- rewrite view_prev, E1. reflexivity.
+      * intros x _ N. destruct (E3 x N) as [X Y]. rewrite !view_prev, X. simpl. rewrite Y. auto.
+      * intros x _. simpl. rewrite E4. reflexivity.
+    + rewrite (rejected_no_change _ _ _ _ _ A).
+      split; [discriminate|]. split; [auto|]. split; [intros x _ _; auto|intros x _; auto].
+  - (* Delegate *)
+    destruct (accepted (fst (step H n s h (Delegate op d)))) eqn:A.
+    + pose proof (delegate_sets _ _ _ _ _ _ A) as E. apply delegate_accepted_iff in A.
+      split; [auto|]. split; [discriminate|]. split.
+      * intros x _ N. simpl. apply feeders_kept_unless_delegate. intros d' C. inversion C. congruence.
+      * intros x _. unfold step. destruct (status s op); simpl; auto.
+    + rewrite (rejected_no_change _ _ _ _ _ A).
+      split; [discriminate|]. split; [auto|]. split; [intros x _ _; auto|intros x _; auto].
+  - (* EditParams *)
+    unfold step. destruct sd; simpl; [|apply kept_refl].
+    destruct (nvp =? 0)%Z; simpl; [apply kept_refl|]. split; intros x _; auto.
+  - (* SetStatus *) unfold step. simpl. split; intros x _; auto.
+  - (* EndBlock *)
+    pose proof (endblock_effect H n s h) as (E1 & _ & _ & E4). cbv zeta in E4.
+    split; [intros x _; change (feeders (snd (step H n s h EndBlock)) x = feeders s x); rewrite E1; reflexivity|].
+    change (w_vp (view_of s)) with (vp s).
+    destruct (is_period_last (vp s) h) eqn:L.
+    + destruct E4 as [V Pv]. intros x _. split; [apply V|].
+      rewrite !view_prev. unfold step. simpl. rewrite L. simpl.
+      destruct (prevotes s x) as [q|]; simpl; auto.
+      destruct (stale (vp s) h (p_submit q)); reflexivity.
+    + rewrite E4. intros x _; auto.
+  - (* Malformed *) unfold step. simpl. apply kept_refl.
+Qed.
+
+Lemma model_trace_P k H evs : forall n s, P k H (view_of s) (otrace_of evs (run H n s evs)).
+Proof.
+  induction evs as [|[h m] r IH]; intros n s; simpl; auto.
+  pose proof (step_satisfies_P k H n s h m) as SP.
+  destruct (step H n s h m) as [o s1]. simpl in *. split; auto.
+Qed.
+
+(* ------------------------------------------------------------------ the ghost field is inert *)
+
+Definition same_view (a b : state) : Prop :=
+  (forall v, w_prev (view_of a) v = w_prev (view_of b) v) /\
+  (forall v, votes a v = votes b v) /\ (forall v, feeders a v = feeders b v) /\
+  (forall v, status a v = status b v) /\ vp a = vp b.
+
+Lemma step_ghost_irrelevant H n1 n2 a b h m :
+  same_view a b ->
+  fst (step H n1 a h m) = fst (step H n2 b h m) /\
+  same_view (snd (step H n1 a h m)) (snd (step H n2 b h m)).
+Proof.
+  intros (Vp & Vv & Vf & Vs & Vvp).
+  assert (AR : forall f v, auth_reasons a f v = auth_reasons b f v).
+  { intros f v. unfold auth_reasons, feeder_ok, bonded. rewrite Vf, Vs. reflexivity. }
+  assert (SV : same_view a b) by (repeat split; auto).
+  destruct m as [f v hash hex_ok|f v salt rates tuples parses wl|op d|sd nvp|v st| |]; unfold step.
+  - rewrite AR. destruct (is_nil _); simpl; split; auto.
+    repeat split; simpl; auto. intro x. unfold upd.
+    destruct (x =? v); [reflexivity|apply Vp].
+  - assert (VR : vote_reasons H a h f v salt rates parses wl = vote_reasons H b h f v salt rates parses wl).
+    { unfold vote_reasons. rewrite AR, Vvp. specialize (Vp v). rewrite !view_prev in Vp.
+      destruct (prevotes a v) as [p|], (prevotes b v) as [q|]; try discriminate; auto.
+      inversion Vp as [[E1 E2]]. rewrite E1, E2. reflexivity. }
+    rewrite VR. destruct (is_nil _); simpl; split; auto.
+    repeat split; simpl; auto; intro x; unfold upd.
+    + destruct (x =? v); [reflexivity|apply Vp].
+    + destruct (x =? v); [reflexivity|apply Vv].
+  - rewrite Vs. destruct (status b op); simpl; split; auto;
+      repeat split; simpl; auto; intro x; unfold upd; (destruct (x =? op); [reflexivity|apply Vf]).
+  - destruct sd; simpl; split; auto. destruct (nvp =? 0)%Z; auto. repeat split; auto.
+  - simpl. split; auto. repeat split; simpl; auto. intro x. unfold upd.
+    destruct (x =? v); [reflexivity|apply Vs].
+  - simpl. split; auto. rewrite Vvp. destruct (is_period_last (vp b) h); auto.
+    repeat split; simpl; auto. intro x. specialize (Vp x). rewrite !view_prev in Vp.
+    destruct (prevotes a x) as [p|], (prevotes b x) as [q|]; try discriminate; auto.
+    inversion Vp as [[E1 E2]]. rewrite E2, Vvp.
+    destruct (stale (vp b) h (p_submit q)); simpl; auto.
+  - simpl. auto.
+Qed.
+
+(* ------------------------------------------------------------------ lifetime under a constant period *)
+
+(** at a period-end block a prevote submitted in the same period survives; at the end of the
+    following period (the one in which it can be revealed) it is dropped *)
+Lemma prevote_survives_own_period_end H n s v p :
+  ranges s -> (p_submit p + vp s < two63)%Z -> prevotes s v = Some p ->
+  let h := ((p_submit p / vp s + 1) * vp s - 1)%Z in
+  prevotes (snd (step H n s h EndBlock)) v = Some p.
+Proof.
+  intros [V Sb] R E h.
+  pose proof (endblock_effect H n s h) as (_ & _ & _ & X). cbv zeta in X.
+  destruct (is_period_last (vp s) h); [|rewrite X; exact E].
+  destruct X as [_ X]. apply X. split; auto.
+  apply not_stale_at_end_of_own_period; auto. apply (Sb _ _ E).
+Qed.
+
+Lemma prevote_dropped_next_period_end H n s v p :
+  ranges s -> (p_submit p + 2 * vp s < two63)%Z -> prevotes s v = Some p ->
+  let h := ((p_submit p / vp s + 2) * vp s - 1)%Z in
+  prevotes (snd (step H n s h EndBlock)) v = None.
+Proof.
+  intros [V Sb] R E h.
+  assert (Rs := Sb _ _ E).
+  assert (Hh : (0 <= h < two63)%Z).
+  { unfold h. pose proof (Z.mod_pos_bound (p_submit p) (vp s) V). pose proof (Z.div_mod (p_submit p) (vp s)).
+    assert (0 <= p_submit p / vp s)%Z by (apply Z.div_pos; lia). nia. }
+  assert (L : is_period_last (vp s) h = true).
+  { apply is_period_last_spec; auto. unfold h.
+    replace ((p_submit p / vp s + 2) * vp s - 1 + 1)%Z with ((p_submit p / vp s + 2) * vp s)%Z by lia.
+    apply Z.mod_mul. lia. }
+  pose proof (endblock_effect H n s h) as (_ & _ & _ & X). cbv zeta in X. rewrite L in X.
+  destruct X as [_ X].
+  destruct (prevotes (snd (step H n s h EndBlock)) v) as [q|] eqn:Q; auto.
+  apply X in Q as [Q1 Q2]. rewrite E in Q1. inversion Q1; subst q.
+  rewrite stale_from_end_of_next_period in Q2; auto; try discriminate; try lia.
 Qed.
